@@ -158,16 +158,24 @@ class NoYear(LogFileOutput):
     time_format = "%b %d %H:%M:%S"
 
 
+class TwoDigitYear(LogFileOutput):
+    time_format = "%y%m%d %H:%M:%S"
+
+
 class Multi(LogFileOutput):
     time_format = ["%Y-%m-%d %H:%M:%S", "%d/%b/%Y:%H:%M:%S"]
 
 
-STAMPS = [datetime.datetime(2023, 12, 30, 10, 0, 0), datetime.datetime(2023, 12, 31, 23, 59, 59), datetime.datetime(2024, 1, 1, 0, 0, 1),
+STAMPS = [datetime.datetime(2023, 8, 15, 10, 0, 0), datetime.datetime(2023, 12, 30, 10, 0, 0), datetime.datetime(2023, 12, 31, 23, 59, 59), datetime.datetime(2024, 1, 1, 0, 0, 1),
           datetime.datetime(2024, 1, 2, 12, 0, 0)]
-REF = [datetime.datetime(2023, 12, 31, 0, 0, 0), datetime.datetime(2024, 1, 1, 0, 0, 1), datetime.datetime(2024, 1, 1, 12, 0, 0)]
+REF = [datetime.datetime(2023, 12, 31, 0, 0, 0), datetime.datetime(2024, 1, 1, 0, 0, 1), datetime.datetime(2024, 1, 1, 12, 0, 0),
+       datetime.datetime(2024, 6, 1, 0, 0, 0)]
 for fmt_cls, render in ((Dflt, lambda d: d.strftime("%Y-%m-%d %H:%M:%S")), (NoYear, lambda d: d.strftime("%b %d %H:%M:%S")),
-                        (Multi, lambda d: d.strftime("%d/%b/%Y:%H:%M:%S"))):
-    for order in itertools.permutations(range(len(STAMPS)), 3):
+                        (Multi, lambda d: d.strftime("%d/%b/%Y:%H:%M:%S")), (TwoDigitYear, lambda d: d.strftime("%y%m%d %H:%M:%S"))):
+    # a format without year is only meaningful inside the documented inference window (330 days): stamps and reference times near the boundary
+    idxs = range(1, len(STAMPS)) if fmt_cls is NoYear else range(len(STAMPS))
+    refs = REF[:3] if fmt_cls is NoYear else REF
+    for order in itertools.permutations(idxs, 3):
         for cont in itertools.product((0, 1), repeat=3):
             content, meta = [], []       # meta: (stamp or None for a continuation line)
             for k, i in enumerate(order):
@@ -176,7 +184,7 @@ for fmt_cls, render in ((Dflt, lambda d: d.strftime("%Y-%m-%d %H:%M:%S")), (NoYe
                 if cont[k]:
                     content.append("    continuation of %d" % i)
                     meta.append(None)
-            for ref in REF:
+            for ref in refs:
                 count["after"] += 1
                 want, inc = [], False
                 for line, st in zip(content, meta):
